@@ -19,7 +19,7 @@ T = {
             'getters are pure in the model; that the implementation\'s getters do not write is established by the snapshot monitor', 'Coq proof: permutation-of-placeholders invariant'),
     'C05': ('Theorems over the generic tree model driven by descriptors re-extracted from models/generated on every run (GeneratedWf by vm_compute): the C05 statement as a predicate WF with a verified checker wf_b (sound), preserved by reattach, clone, construction (full: ConstructFull.v) and by the tree edits of TreeEdit.v at any path (through fields and into items of repeated fields): plugging a re-attached well-formed subtree, inserting an item with its separators (both placements of _insert_tokens), removing an item (both branches of _del_tokens), creating / removing the child of an optional field next to the pivot the extracted chain designates (left and right fields); pop() returns a self-contained well-formed tree; C05_history_all_slots: every sequence of such edits (required, optional, repeated slots) keeps HWF (hence WF); each edit kind is compared with real edits of the implementation on every run (TreeRun.check_ecase2 / check_ocase); counter-lemma: without reattach the result is not WF. wf_b is evaluated on every implementation state the run dumps (parsed, edited, popped, copied, constructed) and the WF statement is monitored after every edit of seeded/focused histories over the whole API.',
             'batch/slice forms are sequences of the single-item edits at tree level and are covered by the token-list theorems of C03 plus per-state validation by the verified checker; hand-written classes by correspondence only', 'translator (ast, fail-closed) + Coq proof over generic tree model (WF checker sound, compositional edits) + per-state validation + WF monitor'),
-    'C06': ('Partial: the re-parse statement needs the real lexer/parser (oracle) and is decided by the monitor (print, re-parse, compare content, value views and comment texts after every edit). Proved: separation of repeated-field items is preserved by every delete/insert/replace (RepeatedSep), tight fields demand nothing; the lexical half over the hand-written recognisers of all 16 terminals that Tokens.v models (TokensStable.v): a complete lexeme followed by text r is recognised with exactly the same extent whenever boundary_K r holds (weakest such condition for 8 terminals), every blank / line end / ', ' is a boundary for every value kind, hence items printed with such gaps scan back into exactly the lexemes (C06_separated_relex; converse witnesses '1'+',234', '#a'+'b', 'BBB'+'USD'); formatted layouts enumerate declared fields in order; pivots are the scheme chains and are recomputed on every access (translator refuses a cached pivot).',
+    'C06': ('Partial: the re-parse statement needs the real lexer/parser (oracle) and is decided by the monitor (print, re-parse, compare content, value views and comment texts after every edit). Proved: separation of repeated-field items is preserved by every delete/insert/replace (RepeatedSep), tight fields demand nothing; the lexical half over the hand-written recognisers of all 16 terminals that Tokens.v models (TokensStable.v): a complete lexeme followed by text r is recognised with exactly the same extent whenever boundary_K r holds (weakest such condition for 8 terminals), every blank / line end / comma-blank is a boundary for every value kind, hence items printed with such gaps scan back into exactly the lexemes (C06_separated_relex; converse witnesses 1 ++ ,234 / #a ++ b / BBB ++ USD); formatted layouts enumerate declared fields in order; pivots are the scheme chains and are recomputed on every access (translator refuses a cached pivot).',
             'lark (choice of terminal by the LALR state, the contextual lexer) is an oracle: the recognisers are compared with lark and CPython re on every run incl. lexeme+continuation texts; optional-field separators covered by C03 slot theorems + monitor', 'Coq proof of separation invariant + lexeme-extent stability + translator facts; re-parse monitor'),
     'C07': ('Theorems about Store.v, a statement-by-statement Gallina model of token_store.py (explicit handles, block indexes, caches, load factor a variable): invariant + refinement to a plain list for every operation and history and every load factor >= 2; observers equal list functions. Full-state correspondence after every step (LF 2..16) and a plain-list monitor.',
             'contract of splice: inserted tokens are free or inside the removed range', 'Coq proof: invariant + refinement to list spec'),
